@@ -21,7 +21,8 @@ package main
 //          inside 0-3 nested let / letseq / newScope / package scopes x 6 syntactic positions of
 //          the exit (cond arm, cond test, and-arm, let initialiser, array element, begin) x order
 //          (recursive call before / in an earlier iteration than / after / inside the scopes of the
-//          exit) x recursion depth 0-4
+//          exit) x recursion depth 0-4 x declaration (defn, def+fn, func builder) x place of the
+//          recursive call (loop body, init, test, increment clause)
 //   walk   recursive tree walks over random nested array literals (depth <= 4) with exits at
 //          negative leaves
 //   tail   self TAIL calls out of nested scopes after a NON-tail self call in the same activation;
@@ -51,6 +52,19 @@ type reSpec struct {
 	depth  int
 	ri, ei int
 	again  bool // call a second time in a later text
+	decl   int  // how the function is declared: defn | (def rf (fn …)) | func builder
+	recAt  int  // where in the loop the recursive call sits: body | init | test | increment
+}
+
+var reDeclNames = []string{"defn", "def-fn", "func-builder"}
+var reRecAtNames = []string{"body", "loop-init", "loop-test", "loop-increment"}
+
+// self: a direct call of the function with argument m
+func (s reSpec) self(m string) string {
+	if s.decl == 2 {
+		return "(rf dn:" + m + ")"
+	}
+	return "(rf " + m + ")"
 }
 
 var reRecNames = []string{"direct", "mutual", "closure-global", "closure-inline", "map", "apply", "macro", "lazy", "eval", "closure-in-loop"}
@@ -64,11 +78,15 @@ func (s reSpec) setup() []string {
 	out := []string{`(def tot 0)`}
 	switch s.rec {
 	case 1:
-		out = append(out, `(defn rg2 [m] (let [z m] (rf z)))`)
+		out = append(out, `(defn rg2 [m] (let [z m] `+s.self("z")+`))`)
 	case 2:
-		out = append(out, `(def rh (fn [m] (newScope (rf m))))`)
+		out = append(out, `(def rh (fn [m] (newScope `+s.self("m")+`)))`)
 	case 6:
-		out = append(out, `(defmac rmac [a] ^(rf ~a))`)
+		if s.decl == 2 {
+			out = append(out, `(defmac rmac [a] ^(rf dn: ~a))`)
+		} else {
+			out = append(out, `(defmac rmac [a] ^(rf ~a))`)
+		}
 	case 7:
 		out = append(out, `(defn rlz [#t] (let [u 1] (+ u (force #t))))`)
 	}
@@ -81,25 +99,31 @@ func (s reSpec) setup() []string {
 func (s reSpec) call(arg string) string {
 	switch s.rec {
 	case 0:
-		return "(rf " + arg + ")"
+		return s.self(arg)
 	case 1:
 		return "(rg2 " + arg + ")"
 	case 2:
 		return "(rh " + arg + ")"
 	case 3:
-		return "((fn [m] (rf m)) " + arg + ")"
+		return "((fn [m] " + s.self("m") + ") " + arg + ")"
 	case 4:
-		return "(first (map (fn [m] (rf m)) [" + arg + "]))"
+		return "(first (map (fn [m] " + s.self("m") + ") [" + arg + "]))"
 	case 5:
+		if s.decl == 2 {
+			return s.self(arg) // named arguments do not go through apply
+		}
 		return "(apply rf [" + arg + "])"
 	case 6:
 		return "(rmac " + arg + ")"
 	case 7:
-		return "(rlz (rf " + arg + "))"
+		return "(rlz " + s.self(arg) + ")"
 	case 8:
+		if s.decl == 2 {
+			return "(eval (quote " + s.self("0") + "))"
+		}
 		return "(eval (list (quote rf) " + arg + "))"
 	default:
-		return "(let [hk (fn [m] (rf m))] (hk " + arg + "))"
+		return "(let [hk (fn [m] " + s.self("m") + ")] (hk " + arg + "))"
 	}
 }
 
@@ -166,26 +190,42 @@ func (s reSpec) fn() string {
 		return fmt.Sprintf("(cond %s %s nil)", g, s.call("(- dn 1)"))
 	}
 	acc := "(set tot (+ tot (+ 10 i)))"
+	// the three clauses of an s-expression loop; the recursive call may sit in one of them
+	// (it then runs while the loop's own scope and stack-mark are already in place)
+	init, test, incr := "(def i 0)", "(< i 3)", "(set i (+ i 1))"
+	recHere := rec(true)
+	if s.recAt != 0 && s.loop <= 2 && s.order != 3 {
+		recHere = "1"
+		switch s.recAt {
+		case 1:
+			init = "(def i (begin (cond (> dn 0) " + s.call("(- dn 1)") + " nil) 0))"
+		case 2:
+			test = fmt.Sprintf("(< i (begin (cond (and (> dn 0) (== i %d)) %s nil) 3))", s.ri, s.call("(- dn 1)"))
+		default:
+			incr = fmt.Sprintf("(set i (+ i (begin (cond (and (> dn 0) (== i %d)) %s nil) 1)))", s.ri, s.call("(- dn 1)"))
+		}
+	}
 	var stmts []string
 	switch s.order {
 	case 0:
-		stmts = []string{rec(true), s.exitStmt(""), acc}
+		stmts = []string{recHere, s.exitStmt(""), acc}
 	case 1:
-		stmts = []string{acc, s.exitStmt(""), rec(true)}
+		stmts = []string{acc, s.exitStmt(""), recHere}
 	case 2:
-		stmts = []string{s.exitStmt(""), acc, rec(true)}
+		stmts = []string{s.exitStmt(""), acc, recHere}
 	default:
 		stmts = []string{acc, s.exitStmt(rec(false))}
 	}
 	body := strings.Join(stmts, " ")
+	hdr := "[" + init + " " + test + " " + incr + "]"
 	var loop string
 	switch s.loop {
 	case 0:
-		loop = "(for [(def i 0) (< i 3) (set i (+ i 1))] " + body + ")"
+		loop = "(for " + hdr + " " + body + ")"
 	case 1:
-		loop = "(for lp: [(def i 0) (< i 3) (set i (+ i 1))] " + body + ")"
+		loop = "(for lp: " + hdr + " " + body + ")"
 	case 2:
-		loop = "(for lo: [(def j 0) (< j 2) (set j (+ j 1))] (for lp: [(def i 0) (< i 3) (set i (+ i 1))] " + body + ") (set tot (+ tot 100)))"
+		loop = "(for lo: [(def j 0) (< j 2) (set j (+ j 1))] (for lp: " + hdr + " " + body + ") (set tot (+ tot 100)))"
 	case 3:
 		loop = "{for i := 0; i < 3; i++ { " + strings.Join(stmts, "; ") + " }}"
 	case 4:
@@ -199,6 +239,12 @@ func (s reSpec) fn() string {
 		// the standard library's `range` macro is not hygienic: it binds `n` and `i` itself (i = the
 		// index it iterates with); the body uses the key variable instead
 		loop = strings.NewReplacer("(== i ", "(== rk ", "(+ 10 i)", "(+ 10 rk)").Replace("(range rk rv [7 8 9] " + body + ")")
+	}
+	switch s.decl {
+	case 1:
+		return "(def rf (fn [dn] " + loop + " (set tot (+ tot 1)) dn))"
+	case 2:
+		return "(func rf [dn:int64] [r:int64] " + loop + " (set tot (+ tot 1)) (return dn))"
 	}
 	return "(defn rf [dn] " + loop + " (set tot (+ tot 1)) dn)"
 }
@@ -215,9 +261,9 @@ func (s reSpec) valid() bool {
 
 func (s reSpec) history() [][]string {
 	t0 := append(s.setup(), s.fn())
-	texts := [][]string{t0, {fmt.Sprintf("(rf %d)", s.depth), "tot"}}
+	texts := [][]string{t0, {s.self(fmt.Sprint(s.depth)), "tot"}}
 	if s.again {
-		texts = append(texts, []string{fmt.Sprintf("(list 7 (rf %d) 8)", s.depth), "tot"})
+		texts = append(texts, []string{"(list 7 " + s.self(fmt.Sprint(s.depth)) + " 8)", "tot"})
 	}
 	return texts
 }
@@ -230,6 +276,8 @@ func (s reSpec) count(g *Gen, fam string) {
 	g.Count(fmt.Sprintf("reent %s scopes-around-exit %d", fam, len(s.wraps)))
 	g.Count("reent " + fam + " exit-position " + rePosNames[s.pos])
 	g.Count(fmt.Sprintf("reent %s depth %d", fam, s.depth))
+	g.Count("reent " + fam + " declared-by " + reDeclNames[s.decl])
+	g.Count("reent " + fam + " recursive-call-in " + reRecAtNames[s.recAt])
 	for _, w := range s.wraps {
 		g.Count("reent " + fam + " scope " + reWrapNames[w])
 	}
@@ -248,6 +296,12 @@ func reRandomSpec(g *Gen) reSpec {
 		}
 		if s.order == 0 {
 			s.ei = s.ri
+		}
+		if g.Rng.Intn(3) == 0 {
+			s.decl = 1 + g.Rng.Intn(2)
+		}
+		if g.Rng.Intn(3) == 0 {
+			s.recAt = 1 + g.Rng.Intn(3)
 		}
 		return s
 	}
@@ -273,6 +327,7 @@ func reTree(g *Gen, d int) string {
 
 func reWalk(g *Gen) [][]string {
 	s := reRandomSpec(g)
+	s.decl, s.recAt = 0, 0
 	s.loop = []int{0, 1, 2, 6}[g.Rng.Intn(4)]
 	if !s.valid() {
 		s.target = 0
@@ -460,8 +515,15 @@ func reRnd(g *Gen) [][]string {
 	save, sl, sro := r.locals, r.labels, r.ro
 	r.locals, r.labels, r.ro = append([]string{}, ps[1:]...), nil, []string{"x"}
 	r.self, r.selfArity = "sf", n
-	r.budget = 40 + r.rnd(40)
-	def := fmt.Sprintf("(defn sf [%s] %s)", strings.Join(ps, " "), r.body(3+r.rnd(2)))
+	wantLoop := r.rnd(3) != 0
+	var def string
+	for try := 0; try < 10; try++ {
+		r.budget = 40 + r.rnd(40)
+		def = fmt.Sprintf("(defn sf [%s] %s)", strings.Join(ps, " "), r.body(3+r.rnd(2)))
+		if strings.Contains(def, "(sf ") && (!wantLoop || strings.Contains(def, "(for ")) {
+			break
+		}
+	}
 	r.self = ""
 	r.locals, r.labels, r.ro = save, sl, sro
 	g.Count(fmt.Sprintf("reent rnd self-calls %d", min(strings.Count(def, "(sf "), 4)))
